@@ -636,7 +636,25 @@ class ThriftGen:
         segs = []
         pool = ["a", "b", "m", "x", "y", "pkg", "v1", "api", "type", "mod", "self", "crate", "super", "fn", "Upper", "camelCase",
                 "snake_case", "_lead", "common", "gen", "std", "core", "pilota"]
-        for _ in range(r.choice([1, 1, 2, 2, 3])):
+        # related namespaces: relative paths between modules that share a prefix, diverge and AGREE AGAIN further down
+        # (shop.order.model next to shop.user.model), that are nested in one another, or that are siblings deep down
+        prev = [f["ns"] for f in self.doc.files[:i] if f.get("ns")]
+        if prev and k < 0.55:
+            p = list(r.choice(prev))
+            q = r.random()
+            if q < 0.4 and len(p) >= 2:
+                j = r.randrange(len(p) - 1)
+                alt = r.choice([x for x in pool if x != p[j]])
+                cand = p[:j] + [alt] + p[j + 1:]            # same depth, one inner segment differs, the tail agrees again
+            elif q < 0.6:
+                cand = p + [r.choice(pool)]                  # child
+            elif q < 0.75 and len(p) >= 2:
+                cand = p[:-1]                                # parent
+            else:
+                cand = p[:-1] + [r.choice([x for x in pool if x != p[-1]])]   # sibling
+            if cand and cand not in prev:
+                return cand
+        for _ in range(r.choice([1, 1, 2, 2, 3, 4])):
             segs.append(r.choice(pool))
         return segs
 
@@ -924,10 +942,14 @@ def c17_thrift_corpus(rng, n_files=8, items=8):
     several services per file; two entry files (for workspace mode: two crates + common)"""
     g = ThriftGen(rng, exotic=0.6, max_fields=6, max_items=items, n_files=n_files, defaults=True, annotations=True)
     nss = [["top"], ["top", "a"], ["top", "a", "deep"], ["top", "b"], ["other"], ["other", "type"], ["z", "self"], ["m"],
-           ["m", "x"], ["m", "x", "y"], ["k9"], ["top", "c", "d", "e"]]
+           ["m", "x"], ["m", "x", "y"], ["k9"], ["top", "c", "d", "e"], ["top", "b", "deep"], ["m", "x", "z"], ["m", "w", "y"]]
     rng.shuffle(nss)
+    # several files per namespace (one module fed from several source files) next to namespaces of their own
+    shared = nss[:2]
+    pick = [shared[j % 2] if j % 3 == 2 else nss[2 + j % (len(nss) - 2)] for j in range(n_files)]
+    pick[0], pick[min(3, n_files - 1)] = shared[0], shared[0]
     orig_ns = g.namespace
-    g.namespace = lambda i: nss[i % len(nss)]
+    g.namespace = lambda i: pick[i % len(pick)]
     doc = g.gen()
     # guarantee several services in the entry files
     for fi in (0, 1 % len(doc.files)):
